@@ -466,6 +466,46 @@ pub fn world(rng: &mut Rng, stakes: &[u64], own: u64, with_waits: bool, with_old
 }
 const SPW: u64 = pool::SLOTS_PER_WINDOW;
 
+/// Scripted histories for C08 (one in every 25 cases): a slot that holds a notarization certificate for one
+/// block while the finalized chain continues from ANOTHER block of that slot (certified by notar-fallback
+/// votes only).  Variant A is the safe execution found by the C01 composition proof (stakes [41, 40, 19],
+/// 19 % Byzantine): descendant (4,41) is fast-finalized, (1,11) becomes implicitly finalized although slot 1
+/// is notarized with (1,12) - the pinned tree panicked there ("consensus safety violation").  It ends with a
+/// late re-delivery of the notarization for (1,12).  Variant B meets the same conflict in mark_notarized: the
+/// notarization certificate for (2,22) arrives after (2,21) has been implicitly finalized and while slot 2
+/// is still held (slot 1 is undecided).
+fn notar_other_block_world(rng: &mut Rng) -> (Vec<u64>, u64, World) {
+    let stakes = vec![41u64, 40, 19];
+    let v = |slot: u64, kind: VK, hash: u64, signer: u64| Op::Vote { slot, kind, hash, signer };
+    let b = |b: (u64, u64), p: (u64, u64)| Op::Block { b, p };
+    let mut ops: Vec<Op> = Vec::new();
+    if rng.chance(2, 3) {
+        ops.extend([b((1, 11), (0, 0)), b((1, 12), (0, 0)),
+                    v(1, VK::Notar, 12, 0), v(1, VK::Notar, 11, 1), v(1, VK::Notar, 12, 2), v(1, VK::NotarFb, 11, 0),
+                    b((2, 21), (1, 11)),
+                    v(2, VK::Skip, 0, 0), v(2, VK::Notar, 21, 1), v(2, VK::Notar, 21, 2), v(2, VK::NotarFb, 21, 0),
+                    v(3, VK::Skip, 0, 0), v(3, VK::Skip, 0, 1), v(3, VK::Skip, 0, 2),
+                    b((4, 41), (2, 21))]);
+        let mut last = vec![v(4, VK::Notar, 41, 0), v(4, VK::Notar, 41, 1)];
+        rng.shuffle(&mut last);
+        ops.extend(last);
+        // late re-delivery for the decided slot 1
+        match rng.below(3) {
+            0 => ops.push(Op::Cert { slot: 1, kind: CK::Notar, hash: 12, s1: vec![0, 2], s2: vec![] }),
+            1 => ops.push(v(1, VK::Notar, 12, 0)),
+            _ => ops.push(Op::Cert { slot: 1, kind: CK::NotarFb, hash: 11, s1: vec![1], s2: vec![0] }),
+        }
+        (stakes, 0, World { ops, max_slot: 4 })
+    } else {
+        ops.extend([b((3, 31), (2, 21)),
+                    Op::Cert { slot: 3, kind: CK::FastFinal, hash: 31, s1: vec![0, 1], s2: vec![] },
+                    Op::Cert { slot: 2, kind: CK::Notar, hash: 22, s1: vec![0, 2], s2: vec![] },
+                    b((2, 21), (1, 11)),
+                    Op::Cert { slot: 2, kind: CK::Notar, hash: 22, s1: vec![0, 2], s2: vec![] }]);
+        (stakes, rng.below(3), World { ops, max_slot: 3 })
+    }
+}
+
 fn gen_world(seed: u64, tier: Tier, sel: u64, salt: u64, nq: usize, nt: usize, waits: bool, old: bool, standstill: bool, rule: &str) -> CaseSet {
     let mut rng = Rng::new(seed ^ salt);
     let mut ring = KeyRing::new();
@@ -475,10 +515,16 @@ fn gen_world(seed: u64, tier: Tier, sel: u64, salt: u64, nq: usize, nt: usize, w
     let mut tally = Tally::default();
     let mut seen = HashSet::new();
     for cid in 0..ncases as u64 {
-        let (stakes, fam) = stake_family(&mut rng);
+        let (stakes, fam, own, w) = if sel == 8 && cid % 25 == 24 {
+            let (stakes, own, w) = notar_other_block_world(&mut rng);
+            (stakes, "scripted:notarized-block-off-the-chain", own, w)
+        } else {
+            let (stakes, fam) = stake_family(&mut rng);
+            let own = rng.below(stakes.len() as u64);
+            let w = world(&mut rng, &stakes, own, waits, old, standstill);
+            (stakes, fam, own, w)
+        };
         *tally.families.entry(fam).or_default() += 1;
-        let own = rng.below(stakes.len() as u64);
-        let w = world(&mut rng, &stakes, own, waits, old, standstill);
         let keys = ring.get(stakes.len());
         let (txt, outs) = pool::run_case(keys, cid, &stakes, own, &w.ops);
         record(cid, &outs, "pool", &mut sigs, &mut stats);
@@ -503,7 +549,7 @@ pub fn gen_c07(seed: u64, tier: Tier) -> CaseSet {
 }
 pub fn gen_c08(seed: u64, tier: Tier) -> CaseSet {
     gen_world(seed, tier, 8, 0xC08, 500, 10000, false, true, false,
-              &format!("{}; plus late votes for arbitrary (possibly decided) slots; non-trivial as C07", WORLD_RULE))
+              &format!("{}; plus late votes for arbitrary (possibly decided) slots; every 25th case is a scripted history in which a slot is notarized with one block while the finalized chain continues from another, notar-fallback certified block of that slot (the safe execution with stakes [41,40,19] on which the pinned finality tracker panicked, and the mark_notarized counterpart), followed by a late re-delivery for the decided slot; non-trivial as C07", WORLD_RULE))
 }
 
 /// A sender whose finalized slot lies beyond the receiver's admission window (finalized + 2 * SLOTS_PER_EPOCH):
